@@ -18,7 +18,7 @@ META = dict(
     level="exploration",
     technique="model-based history testing (Hypothesis op lists + complete short histories) of ReactorBase's timer heap on a harness-owned clock, against an exact reference timer model",
     level_text="Random histories of up to 200 operations (plus bursts of 52-90 calls, most of them cancelled, to trigger compaction) and every history of length <= 4 (quick) / <= 5 (thorough) over a 33-letter alphabet with at most 3 top-level calls are executed on a real ReactorBase with stub I/O; every run of a call, every getDelayedCalls()/getTime()/timeout() observation is compared with the model. Exploration, not proof: long histories are sampled.",
-    level_note="Times are multiples of 1/16 s (dyadic, exact in floats). The reactor is ReactorBase with installWaker/doIteration stubbed and seconds() overridden; the clock moves only where the history says (between iterations, and occasionally inside a running call). Equal-time ordering is not asserted. timeout() is only bounded from above (cancelled, not yet compacted entries may shorten it). A CPU-time watchdog (5 s of user time for one case, which normally needs milliseconds) turns a livelock into a violation.",
+    level_note="Times are multiples of 1/16 s (dyadic, exact in floats). The reactor is ReactorBase with installWaker/doIteration stubbed and seconds() overridden; the clock moves only where the history says (between iterations, and occasionally inside a running call). Equal-time ordering is not asserted. Calls may raise an Exception or a non-Exception BaseException, with DelayedCall.debug off or on (the two failure-handler paths of runUntilCurrent); an exception that escapes iterate() is not itself a violation, a due call left behind by it is. timeout() is only bounded from above (cancelled, not yet compacted entries may shorten it). A CPU-time watchdog (5 s of user time for one case, which normally needs milliseconds) turns a livelock into a violation.",
     design_ref="§5 C08",
     rule="case = list of operations; ops inside calls are part of the call's description. Non-trivial = the history contains a reset-to-sooner or a negative delay applied to a call that already sits in the heap, and at least one iteration that runs >= 2 calls; distinct by the full operation list.",
 )
@@ -28,6 +28,11 @@ TICK = 0.0625  # 1/16 s
 
 class _Planned(Exception):
     """Raised on purpose by a generated call ('raises' flag)."""
+
+
+class _PlannedBase(BaseException):
+    """Raised on purpose by a generated call: a BaseException that is not an
+    Exception (the class of KeyboardInterrupt / SystemExit / GeneratorExit)."""
 
 
 class _Hang(BaseException):
@@ -100,6 +105,10 @@ class _Run:
         self.f_incall_adv = False
         self.f_dead_op = False
         self.f_requeue = False
+        self.f_escaped = False
+        self.f_raise = False
+        self.f_raise_base = False
+        self.escaped = None
 
     # ---- divergence plumbing -------------------------------------------
     def bad(self, sig, detail):
@@ -278,8 +287,14 @@ class _Run:
         self.in_iter = True
         try:
             R.iterate()
-        except _Hang:
+        except (_Hang, _Stop):
             pass
+        except (_Planned, _PlannedBase) as e:
+            # what a call raises must not end the iteration for the other
+            # calls; the checks below say whether a due call was left behind
+            self.f_escaped = True
+            self.ctx.count("iteration aborted by an exception from a call")
+            self.escaped = repr(e)
         finally:
             self.in_iter = False
         self.flush_stash()
@@ -292,8 +307,10 @@ class _Run:
             self.f_multi = True
         for c in self.calls:
             if c.state == "pending" and c.created_iter != self.iter_no and c.T <= self.iter_start:
-                self.bad("due-call-not-run",
-                         f"call {c.cid} scheduled for {c.T * TICK} still pending after the iteration that started at {self.iter_start * TICK}")
+                self.bad("due-call-not-run" if self.escaped is None else "due-call-not-run-after-call-raised",
+                         f"call {c.cid} scheduled for {c.T * TICK} still pending after the iteration that started at {self.iter_start * TICK}"
+                         + (f"; the iteration was aborted by {self.escaped} raised from a call" if self.escaped else ""))
+        self.escaped = None
         self.check_gdc("after iteration")
         if tq:
             self.do_timeout()
@@ -314,7 +331,7 @@ class _Run:
             return
         try:
             self._fire(cid)
-        except _Planned:
+        except (_Planned, _PlannedBase):
             raise
         except _Stop:
             return
@@ -350,8 +367,12 @@ class _Run:
         for a in c.nested:
             self.f_nested = True
             self.step(a)
-        if c.raises:
+        if c.raises == 1:
+            self.f_raise = True
             raise _Planned()
+        if c.raises == 2:
+            self.f_raise_base = True
+            raise _PlannedBase()
 
     # ---- interpreter -----------------------------------------------------
     def step(self, op):
@@ -409,6 +430,11 @@ def run_case(ctx, case):
         signal.signal(signal.SIGVTALRM, _on_vtalrm)
     _HANG[0] = False
     signal.setitimer(signal.ITIMER_VIRTUAL, 5.0, 1.0)
+    from twisted.internet.base import DelayedCall
+    old_debug = DelayedCall.debug
+    # DelayedCall.debug (documented class attribute) records the creator's
+    # stack and makes runUntilCurrent use a different failure handler
+    DelayedCall.debug = bool(case.get("debug", 0))
     try:
         r = _Run(ctx, case)
         for op in case["ops"]:
@@ -418,6 +444,7 @@ def run_case(ctx, case):
                 r.check_gdc("after " + op[0])
         r.close()
     finally:
+        DelayedCall.debug = old_debug
         signal.setitimer(signal.ITIMER_VIRTUAL, 0)
     # bookkeeping
     ctx.count("calls created", len(r.calls))
@@ -428,11 +455,15 @@ def run_case(ctx, case):
                         (r.f_nested, "history: nested action executed"),
                         (r.f_compaction, "history: queue compaction happened"),
                         (r.f_incall_adv, "history: clock moved inside a call"),
-                        (r.f_dead_op, "history: op on finished call")):
+                        (r.f_dead_op, "history: op on finished call"),
+                        (r.f_raise, "history: a call raised an Exception"),
+                        (r.f_raise_base, "history: a call raised a non-Exception BaseException"),
+                        (r.f_raise_base and case.get("debug", 0), "history: BaseException raised with DelayedCall.debug on"),
+                        (bool(case.get("debug", 0)), "history: DelayedCall.debug on")):
         if flag:
             ctx.count(label)
     if r.f_multi and r.f_sooner_in_heap:
-        ctx.nontrivial(case["ops"])
+        ctx.nontrivial((case["ops"], case.get("debug", 0)))
         ctx.count("nontrivial")
         if len(ctx.samples) < 5 and len(case["ops"]) <= 12:
             ctx.sample(case)
@@ -452,6 +483,7 @@ _DT = (0, 0, 1, 8, 16, 16, 32, 48, 2, 4, 24, 40, 64, 80, 96, 3)          # delay
 _DA = (-16, 16, -1, 1, -8, 8, -32, 32, -64, -48, -4, 4, 0, 48, 64, -24)  # delay() arguments
 _IA = (0, 16, 1, 8, 16, 32, 2, 4, 0, 16, 24, 48, 64, 3, 80, 1)           # advance before an iteration
 _REFK = "ppplllaa"
+_RAISE = (0, 0, 0, 0, 0, 0, 2, 1)     # 1: raises an Exception, 2: raises a non-Exception BaseException
 _KINDS = ("call", "call", "call", "call", "call", "cancel", "reset", "reset",
           "delay", "delay", "adv", "iter", "iter", "iter", "timeout", "call")
 
@@ -492,7 +524,7 @@ def _dec_nested(D, depth):
         else:
             d = _DT[D.take(16)]
             if depth > 0:
-                out.append(["call", d, int(D.take(8) == 7), _dec_nested(D, depth - 1)])
+                out.append(["call", d, _RAISE[D.take(8)], _dec_nested(D, depth - 1)])
             else:
                 out.append(["call", d, 0, []])
     return out
@@ -502,7 +534,7 @@ def _dec_op(word):
     D = _Digits(int.from_bytes(word, "little"))
     k = _KINDS[D.take(16)]
     if k == "call":
-        return ["call", _DT[D.take(16)], int(D.take(8) == 7), _dec_nested(D, 1)]
+        return ["call", _DT[D.take(16)], _RAISE[D.take(8)], _dec_nested(D, 1)]
     if k == "cancel":
         return ["cancel", _dec_ref(D)]
     if k == "reset":
@@ -526,7 +558,8 @@ def _strategies():
                          st.lists(word, min_size=15, max_size=maxn),
                          st.lists(word, min_size=50, max_size=maxn))
 
-    plain = hist(200).map(lambda ws: dict(ops=[_dec_op(w) for w in ws]))
+    dbg = st.sampled_from([0, 0, 0, 1])
+    plain = st.builds(lambda ws, g: dict(ops=[_dec_op(w) for w in ws], debug=g), hist(200), dbg)
 
     burst = st.tuples(st.just("burst"), st.integers(52, 90), st.integers(0, 64),
                       st.sampled_from([0, 1, 3, 7, 16]), st.sampled_from([2, 3, 5, 97]),
@@ -538,7 +571,7 @@ def _strategies():
         ops = [_dec_op(w) for w in ws]
         for pos, b in sorted(bursts, key=lambda pb: -pb[0]):
             ops.insert(pos % (len(ops) + 1), b)
-        return dict(ops=ops)
+        return dict(ops=ops, debug=0)
 
     bursty = st.builds(merge, hist(120),
                        st.lists(st.tuples(st.integers(0, 120), burst), min_size=1, max_size=3))
@@ -614,6 +647,41 @@ def _enum_shard(ctx, arg):
     enumerate_run(ctx, _short_histories(first, length), run_case)
 
 
+def _raising_histories(maxlen, debug):
+    """Second small scope: the alphabet plus calls that raise (an Exception /
+    a non-Exception BaseException), with DelayedCall.debug off or on.  With
+    debug off only the histories that contain a raising call are new."""
+    import itertools
+    A = _alphabet()
+    extra = [(["call", 0, 1, []], "new"), (["call", 0, 2, []], "new"), (["call", U, 2, []], "new"),
+             (["call", 0, 2, [["call", 0, 0, []]]], "new")]
+    A2 = A + extra
+    for n in range(1, maxlen + 1):
+        for seq in itertools.product(A2, repeat=n):
+            if seq[0][1] != "new":
+                continue
+            ncalls = 0
+            ok = True
+            raising = False
+            for op, need in seq:
+                if need == "new":
+                    ncalls += 1
+                    raising = raising or op[2] != 0
+                    if ncalls > 3:
+                        ok = False
+                        break
+                elif ncalls < need:
+                    ok = False
+                    break
+            if ok and (raising or debug):
+                yield dict(ops=[op for op, _ in seq], debug=debug)
+
+
+def _raise_shard(ctx, arg):
+    maxlen, debug = arg
+    enumerate_run(ctx, _raising_histories(maxlen, debug), run_case)
+
+
 def _hyp_shard(ctx, i):
     plain, bursty = _strategies()
     hyp_run(ctx, plain, run_case, 8000, label=f"plain-shard{i}")
@@ -636,8 +704,19 @@ def run(ctx):
             _enum_shard(ctx, a)
             if ctx.has_violation():
                 break
+    if not ctx.has_violation():
+        rl = ctx.pick(3, 4)
+        if ctx.thorough:
+            ctx.shards(_raise_shard, [(rl, 0), (rl, 1)])
+        else:
+            for a in ((rl, 1), (rl, 0)):
+                _raise_shard(ctx, a)
+                if ctx.has_violation():
+                    break
     ctx.extra["exhaustive_scope"] = (f"every history of length 1..{maxlen} over {len(A)} letters "
-                                     f"(at most 3 top-level calls, first op a call)")
+                                     f"(at most 3 top-level calls, first op a call); plus every history of length "
+                                     f"1..{ctx.pick(3, 4)} over those letters and 4 raising-call letters with "
+                                     f"DelayedCall.debug on, and those containing a raising call with debug off")
     ctx.exhaustive = False  # the property quantifies over longer histories too
     if ctx.has_violation():
         return
